@@ -53,7 +53,12 @@ def rule_TR1(rep, prog, ex, q, ts):
         dirty0 = bool(t.old.k0 & q.DIRTY)
         suspended = t.old.ulo >= q.NEEDS_ACTIVATION
         MARK = q.DIRTY | q.ENQUEUED | q.ENQUEUED_ON_MGR
-        remark = t.sets(q.DIRTY) or t.sets(q.ENQUEUED) or t.sets(q.ENQUEUED_ON_MGR) or any(m and (m & ~MARK) == 0 for m in t.new.someset)
+        # DIRTY counts as a re-mark only when this transition itself ORs it in ("whoever holds the width / resumes the queue will look"): a DIRTY bit that is
+        # merely carried over from the old state into an unlocked, un-enqueued new state is seen by nobody
+        ENQ = q.ENQUEUED | q.ENQUEUED_ON_MGR
+        carried = bool(t.new.om & q.DIRTY) or bool(t.old.k1 & q.DIRTY)
+        dirty_ored = not carried and (t.sets(q.DIRTY) or any(m and (m & ~MARK) == 0 for m in t.new.someset))
+        remark = dirty_ored or t.sets(q.ENQUEUED) or t.sets(q.ENQUEUED_ON_MGR) or any(m and (m & ~ENQ) == 0 for m in t.new.someset)
         kept_enq = (bool(t.old.k1 & (q.ENQUEUED | q.ENQUEUED_ON_MGR)) and (t.preserves(q.ENQUEUED) or t.preserves(q.ENQUEUED_ON_MGR))) or \
                    any((m & ~(q.ENQUEUED | q.ENQUEUED_ON_MGR)) == 0 and t.keeps_set(m) for m in t.old.some_set)
         ok = dirty0 or suspended or remark or kept_enq
